@@ -416,3 +416,6 @@ def run(ctx):
     r19_4(ctx)
     r19_1b(ctx)
     r19_5(ctx)
+    # set_last_datetime and the chart rows are computed from project.time and the logs: the absence editors must keep them equal
+    from .C18 import check as absence_editors
+    absence_editors(ctx)
